@@ -22,6 +22,7 @@ values produced by a second implementation; no structural rule stands for it.
 import absint as A
 import models
 import runner
+import terms
 from props import util
 from props.c01 import classify_loops, EFFECT_DENY, EFFECT_OK_CRATES
 
@@ -96,6 +97,39 @@ def run(prog, rep, tier):
                 else:
                     worst[f['name']] = ('F', min(cur[1], x[1]), max(cur[2], x[2]), cur[3] or x[3])
     rep.floor('Ok return states of from_record', nok, 1)
+    # X6 (after seed C15-s11, which read the altitude through a signed shift and clamped it): the GPS altitude of every Ok
+    # record is 13 unsigned bits taken bit for bit, in order, from one word expression - a necessary condition of "the same
+    # altitude" (every altitude of 0..8191 m is reportable); which word and which offset is not decided (the decrypted words are opaque)
+    alts = []
+    for st, v in rets:
+        r = E.deep_resolve(st, v)
+        if r == A.BOT or r[0] != 'E':
+            continue
+        for idx, payload in r[2]:
+            if idx != 0:
+                continue
+            rec = E.deep_resolve(st, E.expand(payload[0]))
+            if rec == A.BOT or rec[0] != 'A' or len(rec[1]) != len(fields):
+                continue
+            for f, x in zip(fields, rec[1]):
+                if f['name'] == 'geoaltitude':
+                    x = E.scalar(st, x, f['ty'])
+                    why = None
+                    if x[0] != 'I' or x[1] < 0 or x[2] > 8191:
+                        why = 'its interval is %s' % A.show_val(x)[:60]
+                    else:
+                        try:
+                            bf, atom = terms.bit_form(x[4], 32)
+                            if sorted(bf) != list(range(13)) or any(bf[i] - bf[0] != i for i in range(13)):
+                                why = 'its bits come from source bits %s' % bf
+                        except terms.NotNormal as e:
+                            why = 'it is not a bit selection of one word (%s): %s' % (e, A.show_term(x[4])[:100] if x[4] else None)
+                    alts.append(why)
+    rep.floor('altitude values of Ok records', len(alts), 1)
+    bad = [w for w in alts if w]
+    rep.check(not bad, 'X6-altitude-bits', 'Flarm.geoaltitude#13-unsigned-bits', entry['file'],
+              'the GPS altitude of an Ok record is not 13 unsigned bits of the decrypted packet taken in order: %s' % (bad[0] if bad else ''),
+              sample={'field': 'geoaltitude', 'states': len(alts), 'form': '13 consecutive bits of one word, unsigned'})
     rep.floor('float fields of Flarm', len(worst), 7)
     for name, w in sorted(worst.items()):
         finite = w[0] == 'F' and not w[3] and w[1] > -INF and w[2] < INF
